@@ -81,6 +81,9 @@ pub struct XlsxChoices {
     /// number formatting of f64: 0 shortest, 1 exponent form, 2 trailing zeros
     pub num_style: u8,
     pub vba: Option<Vec<u8>>,
+    /// <row> elements written in a random order (every row and cell then carries its reference;
+    /// sheets with shared formulas keep their order)
+    pub rows_shuffled: bool,
 }
 
 impl Default for XlsxChoices {
@@ -105,6 +108,7 @@ impl Default for XlsxChoices {
             sst_noise: false,
             num_style: 0,
             vba: None,
+            rows_shuffled: false,
         }
     }
 }
@@ -135,6 +139,7 @@ impl XlsxChoices {
             sst_noise: rng.chance(1, 3),
             num_style: rng.below(3) as u8,
             vba: None,
+            rows_shuffled: false,
         }
     }
     /// closed-vocabulary feature names of the non-default choices
@@ -487,12 +492,16 @@ impl<'a> Enc<'a> {
             rows.entry(p.0).or_default().push((p.1, c));
         }
         let mut row_cursor: u32 = 0; // the row an `r`-less <row> would get
+        let shuffle = self.ch.rows_shuffled && sh.shared.is_empty();
+        let mut row_xml: Vec<String> = vec![];
+        let outer = std::mem::take(&mut s);
         for (r, cells) in rows {
-            let implicit_row_wanted = match self.ch.refs {
-                RefMode::ImplicitAll => true,
-                RefMode::Mixed => self.rng.bool(),
-                _ => false,
-            };
+            let implicit_row_wanted = !shuffle
+                && match self.ch.refs {
+                    RefMode::ImplicitAll => true,
+                    RefMode::Mixed => self.rng.bool(),
+                    _ => false,
+                };
             let mut with_row_r = true;
             if implicit_row_wanted && r >= row_cursor && r - row_cursor <= 12 {
                 // filler rows bring the cursor to r
@@ -516,11 +525,12 @@ impl<'a> Enc<'a> {
             s.push_str(&format!("{}<{}{}>", self.nl(), self.q("row"), rat));
             let mut col_cursor: u32 = 0;
             for (c, cell) in cells {
-                let implicit_wanted = match self.ch.refs {
-                    RefMode::ImplicitCells | RefMode::ImplicitAll => true,
-                    RefMode::Mixed => self.rng.bool(),
-                    RefMode::Explicit => false,
-                };
+                let implicit_wanted = !shuffle
+                    && match self.ch.refs {
+                        RefMode::ImplicitCells | RefMode::ImplicitAll => true,
+                        RefMode::Mixed => self.rng.bool(),
+                        RefMode::Explicit => false,
+                    };
                 // an r-less cell takes (row cursor of the reader, previous column + 1): only legal
                 // here when the row itself is positioned by the cursor or its r equals the reader's
                 // row cursor, which holds for explicit rows too because the reader sets its row
@@ -542,6 +552,15 @@ impl<'a> Enc<'a> {
             }
             s.push_str(&format!("{}</{}>", self.nl(), self.q("row")));
             row_cursor = r + 1;
+            row_xml.push(std::mem::take(&mut s));
+        }
+        if shuffle && row_xml.len() > 1 {
+            self.rng.shuffle(&mut row_xml);
+            self.count("rows_out_of_order");
+        }
+        s = outer;
+        for rx in row_xml {
+            s.push_str(&rx);
         }
         s.push_str(&format!("{}</{}>", self.nl(), self.q("sheetData")));
         if self.ch.extras {
